@@ -43,6 +43,8 @@ def solve(P, name, bad, params):
     P.stats.note_query([bad], r)
     if r == z3.unsat:
         P.obligation(name, "holds", symbolic=True)
+        # witness: the compiled kernels / real classes at these sizes agree with the direct definition
+        P.witness("c12", dict(params), "witness-" + name.replace(" ", "_").replace("[", "_").replace("]", "_").replace(",", "_").replace("=", "").replace("/", "-")[:90], name)
     elif r == z3.unknown:
         P.inconclusive_(f"{name}: solver unknown")
     else:
